@@ -45,7 +45,10 @@ def run_model(module, sc, env):
 
 def glue_trigger(c):
     ms = sorted(set(c["mode"])) or ["none"]
-    return "%s,%s" % (c["style"], "+".join(ms))
+    t = "%s,%s" % (c["style"], "+".join(ms))
+    if c.get("prior", "none") != "none":
+        t += ",after=" + c["prior"]
+    return t
 
 
 def main():
@@ -125,7 +128,7 @@ def main():
         # ------------------------------------------------------------------ (a) gluing / format_asynq_stack
         gcases = []
         gstates = gtrans = 0
-        runs = [{"MAXD": "7" if quick else "8"}]
+        runs = [{"MAXD": "7" if quick else "8", "PRIORD": "4" if quick else "5"}]
         if not quick:
             runs += [{"DEEP": "50"}, {"DEEP": "200"}]
         for env in runs:
@@ -155,6 +158,8 @@ def main():
         mis_a = replay_all("glue", gcases, clause_of=glue_clauses)
         stats["glue"] = {"states": gstates, "transitions": gtrans, "chains": len(gcases),
                          "max_depth": max(c["d"] for c in gcases),
+                         "chains_after_an_earlier_computation": sum(1 for c in gcases if c.get("prior", "none") != "none"),
+                         "earlier_computation_kinds": sorted({c.get("prior", "none") for c in gcases}),
                          "chains_reaching_caller_with_error": sum(1 for c in gcases if c["outcome"][0] == "err"),
                          "stack_probes": sum(len(c["probes"]) for c in gcases), "mismatches": mis_a}
         small = [c for c in gcases if c["d"] <= 4]
@@ -211,16 +216,16 @@ def main():
             "parts": stats, "builds": list(builds), "model_ok": not alarms,
             "model_invariants": {"Diag": ["OnlyCompleteRunsCollapsed", "EveryCompleteRunCollapsed", "KeptLinesInOrder", "LinesAccountedFor",
                                           "SomeOutput", "GreedyAdmissible", "UniqueUnlessOverlap", "NoRunNoChange"],
-                                 "DiagGlue": ["Glued", "GluedAtCaller", "StackIsCreatorChain", "CaughtMeansValue", "EveryLevelProbed"],
+                                 "DiagGlue": ["Glued", "GluedAtCaller", "StackIsCreatorChain", "OwnTasksOnly", "IdleBetweenComputations", "CaughtMeansValue", "EveryLevelProbed"],
                                  "DiagLife": ["DiagnosticsTotal", "FormatErrorTotal", "StateDeclared", "all states reachable (ASSUME)"]},
             "evaluations": total,
             "distinct_nontrivial": stats["filter"]["texts_with_complete_runs"] + nglue_nontriv + len(visited) + len(fe),
             "rule": "filter: every text of <= %s lines over 12 line classes, <= %s lines over {c,g,v,f}, <= %s blocks out of 30 "
                     "(full runs, proper prefixes/suffixes, foreign line); glue: every chain of depth <= %s x raising level x handler "
-                    "modes x sync x style x outer%s; life: every operation history of 14 object kinds to depth %s + 88 format_error "
+                    "modes x sync x style x outer%s, chains of depth <= %s also after each of 6 kinds of earlier computation on the thread (error handled by a task / by the caller); life: every operation history of 14 object kinds to depth %s + 88 format_error "
                     "cells; non-trivial = text with a complete run / chain with a handler / distinct (kind,state) / cell"
                     % (env_get(stats, "max_lines"), env_get(stats, "max_short_lines"), env_get(stats, "max_blocks"),
-                       "7" if quick else "8", "" if quick else " + depths 25..200", "5" if quick else "7"),
+                       "7" if quick else "8", "" if quick else " + depths 25..200", "4" if quick else "5", "5" if quick else "7"),
             "exhaustive": True,
             "counts": {"filter_texts": nfilter, "glue_chains": nglue, "life_histories": len(lcases)},
         }
